@@ -243,6 +243,9 @@ func finish(e *Env, c *Check, r *res.Result, wall time.Duration) int {
 	knownPrinted := map[string]bool{}
 	violations := 0
 	replayRoot := filepath.Join(verifDir, "replays", e.ID)
+	if e.Repo != "/repo" {
+		replayRoot = filepath.Join(verifDir, "replays", "selftest", e.ID)
+	}
 	var firstViolations []map[string]any
 	sort.SliceStable(r.Failures, func(i, j int) bool { return r.Failures[i].Kind < r.Failures[j].Kind })
 	seenKind := map[string]bool{}
@@ -319,9 +322,15 @@ func finish(e *Env, c *Check, r *res.Result, wall time.Duration) int {
 		"wall_s":      float64(int(wall.Seconds()*10)) / 10,
 		"violations":  violations,
 	}
-	os.MkdirAll(filepath.Join(verifDir, "evidence"), 0o755)
+	// sensitivity self-tests (VERIF_REPO pointing at a scratch copy) and replays must not
+	// overwrite the evidence of the real tree
+	evDir := filepath.Join(verifDir, "evidence")
+	if e.Repo != "/repo" || os.Getenv("VERIF_NO_EVIDENCE") != "" {
+		evDir = filepath.Join(e.Scratch, "evidence")
+	}
+	os.MkdirAll(evDir, 0o755)
 	bs, _ := json.MarshalIndent(ev, "", " ")
-	if err := os.WriteFile(filepath.Join(verifDir, "evidence", e.ID+".json"), append(bs, '\n'), 0o644); err != nil {
+	if err := os.WriteFile(filepath.Join(evDir, e.ID+".json"), append(bs, '\n'), 0o644); err != nil {
 		fmt.Fprintln(os.Stderr, "write evidence:", err)
 		return 2
 	}
@@ -381,6 +390,7 @@ func cmdReplay(id, path string) int {
 		fmt.Fprintln(os.Stderr, "no replay for", id)
 		return 2
 	}
+	os.Setenv("VERIF_NO_EVIDENCE", "1")
 	e := newEnv(id, "quick")
 	r := c.Replay(e, path)
 	return finish(e, c, r, 0)
